@@ -103,7 +103,12 @@ def check(chk):
     co = m.func('SortedSet.__contains__')
     chk.judge('i = self._find_insertion(item)' in src(co) and 'i < len(self._items) and self._items[i] == item' in src(co), 'C33.insert', co, 'membership: element at the insertion point equals item', 'membership test changed')
     rm = m.func('SortedSet.remove')
-    chk.judge('self._items.pop(i)' in src(rm) and 'if self._items[i] == item' in src(rm) and 'raise KeyError' in src(rm), 'C33.insert', rm, 'remove pops the equal element at the insertion point, else KeyError', 'remove changed')
+    grm = CFG(rm)
+    flrm = Flow(grm, 0, lambda n, c: c)
+    pops = [n for n in grm.stmt_nodes() if n.kind in ('stmt', 'return') and 'self._items.pop(i)' in src(n.ast)]
+    okrm = len(pops) == 1 and all(fa.knows('self._items[i] == item') is True and fa.knows('i < len(self._items)') is True for fa, _ in flrm.at(pops[0])) \
+        and 'i = self._find_insertion(item)' in src(rm)
+    chk.judge(okrm and 'raise KeyError' in src(rm), 'C33.insert', rm, 'remove pops the equal element at the insertion point, else KeyError', 'remove changed')
     # accumulators
     for name in ('intersection', 'difference'):
         f = m.func('SortedSet.%s' % name)
